@@ -344,6 +344,15 @@ impl LazyFreeStats {
 /// still in use by active tokens.
 #[derive(Debug)]
 pub struct VersionManager {
+    /// Counters and locks, shared with every token issued by this manager.  A token holds
+    /// its own reference, so it can be released (directly, from the thread-local token cache
+    /// or at thread exit) after the manager itself has been dropped or moved.
+    state: Arc<VersionState>,
+}
+
+/// The state behind a [`VersionManager`]; kept alive by the manager and by its tokens.
+#[derive(Debug)]
+struct VersionState {
     /// Current concurrency level.
     concurrency_level: ConcurrencyLevel,
     /// Master version sequence counter.
@@ -364,7 +373,7 @@ pub struct VersionManager {
 }
 
 #[cfg(zipora_verif)]
-impl Drop for VersionManager {
+impl Drop for VersionState {
     fn drop(&mut self) {
         verif_sched::manager_dropped(self.verif_id);
     }
@@ -374,46 +383,48 @@ impl VersionManager {
     /// Creates a new version manager with the specified concurrency level.
     pub fn new(concurrency_level: ConcurrencyLevel) -> Self {
         Self {
-            concurrency_level,
-            current_version: AtomicU64::new(1), // Start at 1 to avoid zero-version issues
-            min_version: AtomicU64::new(1),
-            active_readers: AtomicU64::new(0),
-            active_writers: AtomicU64::new(0),
-            token_chain_mutex: Mutex::new(()),
-            stats: Mutex::new(VersionManagerStats::default()),
-            #[cfg(zipora_verif)]
-            verif_id: verif_sched::new_manager_id(),
+            state: Arc::new(VersionState {
+                concurrency_level,
+                current_version: AtomicU64::new(1), // Start at 1 to avoid zero-version issues
+                min_version: AtomicU64::new(1),
+                active_readers: AtomicU64::new(0),
+                active_writers: AtomicU64::new(0),
+                token_chain_mutex: Mutex::new(()),
+                stats: Mutex::new(VersionManagerStats::default()),
+                #[cfg(zipora_verif)]
+                verif_id: verif_sched::new_manager_id(),
+            }),
         }
     }
 
     /// Returns the current concurrency level.
     #[inline]
     pub fn concurrency_level(&self) -> ConcurrencyLevel {
-        self.concurrency_level
+        self.state.concurrency_level
     }
 
     /// Returns the current version sequence number.
     #[inline]
     pub fn current_version(&self) -> u64 {
-        self.current_version.load(Ordering::Acquire)
+        self.state.current_version.load(Ordering::Acquire)
     }
 
     /// Returns the minimum version still in use.
     #[inline]
     pub fn min_version(&self) -> u64 {
-        self.min_version.load(Ordering::Acquire)
+        self.state.min_version.load(Ordering::Acquire)
     }
 
     /// Returns the number of active reader tokens.
     #[inline]
     pub fn active_readers(&self) -> u64 {
-        self.active_readers.load(Ordering::Relaxed)
+        self.state.active_readers.load(Ordering::Relaxed)
     }
 
     /// Returns the number of active writer tokens.
     #[inline]
     pub fn active_writers(&self) -> u64 {
-        self.active_writers.load(Ordering::Relaxed)
+        self.state.active_writers.load(Ordering::Relaxed)
     }
 
     /// Acquires a new reader token.
@@ -422,7 +433,7 @@ impl VersionManager {
     /// sequence number and updating the active token count.
     pub fn acquire_reader_token(&self) -> Result<ReaderToken> {
         // Check if readers are allowed at this concurrency level
-        if self.concurrency_level == ConcurrencyLevel::NoWriteReadOnly {
+        if self.state.concurrency_level == ConcurrencyLevel::NoWriteReadOnly {
             // Read-only level allows unlimited readers without version tracking
             return Ok(ReaderToken::new_readonly());
         }
@@ -430,26 +441,26 @@ impl VersionManager {
         let start_time = Instant::now();
 
         // For levels that require synchronization, acquire version under lock
-        let (version, min_version) = if self.concurrency_level.requires_synchronization() {
+        let (version, min_version) = if self.state.concurrency_level.requires_synchronization() {
             #[cfg(zipora_verif)]
             sched_point(pt::R_LOCK);
-            let _lock = self.token_chain_mutex.lock().map_err(|_| {
+            let _lock = self.state.token_chain_mutex.lock().map_err(|_| {
                 ZiporaError::system_error("Failed to acquire token chain mutex for reader")
             })?;
 
             #[cfg(zipora_verif)]
             sched_point(pt::R_LOAD_MIN);
-            let current_min = self.min_version.load(Ordering::Acquire);
+            let current_min = self.state.min_version.load(Ordering::Acquire);
             #[cfg(zipora_verif)]
             sched_point(pt::R_FADD_CUR);
-            let version = self.current_version.fetch_add(1, Ordering::AcqRel) + 1;
+            let version = self.state.current_version.fetch_add(1, Ordering::AcqRel) + 1;
 
             // Increment active reader count while still holding the mutex: a token whose
             // version has been assigned is always visible in the counter, which is what
             // try_advance_min_version relies on.
             #[cfg(zipora_verif)]
             sched_point(pt::R_INC);
-            self.active_readers.fetch_add(1, Ordering::Relaxed);
+            self.state.active_readers.fetch_add(1, Ordering::Relaxed);
 
             #[cfg(zipora_verif)]
             sched_point(pt::R_UNLOCK);
@@ -459,12 +470,12 @@ impl VersionManager {
             // Increment active reader count
             #[cfg(zipora_verif)]
             sched_point(pt::R_INC);
-            self.active_readers.fetch_add(1, Ordering::Relaxed);
+            self.state.active_readers.fetch_add(1, Ordering::Relaxed);
             (1, 1)
         };
 
         // Update statistics
-        if let Ok(mut stats) = self.stats.lock() {
+        if let Ok(mut stats) = self.state.stats.lock() {
             stats.reader_tokens_acquired += 1;
             stats.total_reader_acquisition_time += start_time.elapsed();
         }
@@ -473,12 +484,12 @@ impl VersionManager {
             version,
             min_version,
             thread::current().id(),
-            self.concurrency_level,
+            self.state.concurrency_level,
             Arc::new(TokenReleaseCallback {
-                version_manager: self as *const Self,
+                state: Arc::clone(&self.state),
                 token_type: TokenType::Reader,
                 #[cfg(zipora_verif)]
-                verif_id: self.verif_id,
+                verif_id: self.state.verif_id,
             }),
         ))
     }
@@ -489,7 +500,7 @@ impl VersionManager {
     /// checking based on the concurrency level.
     pub fn acquire_writer_token(&self) -> Result<WriterToken> {
         // Check if writers are allowed at this concurrency level
-        if self.concurrency_level == ConcurrencyLevel::NoWriteReadOnly {
+        if self.state.concurrency_level == ConcurrencyLevel::NoWriteReadOnly {
             return Err(ZiporaError::invalid_operation(
                 "Writers not allowed in NoWriteReadOnly mode",
             ));
@@ -498,10 +509,10 @@ impl VersionManager {
         let start_time = Instant::now();
 
         // Acquire version under lock for synchronized levels
-        let (version, min_version) = if self.concurrency_level.requires_synchronization() {
+        let (version, min_version) = if self.state.concurrency_level.requires_synchronization() {
             #[cfg(zipora_verif)]
             sched_point(pt::W_LOCK);
-            let _lock = self.token_chain_mutex.lock().map_err(|_| {
+            let _lock = self.state.token_chain_mutex.lock().map_err(|_| {
                 ZiporaError::system_error("Failed to acquire token chain mutex for writer")
             })?;
 
@@ -509,10 +520,10 @@ impl VersionManager {
             // increment of `active_writers` below happen inside the same critical section:
             // every increment of the counter is made under `token_chain_mutex`, so two
             // writers can never both observe zero.
-            if self.concurrency_level == ConcurrencyLevel::OneWriteMultiRead {
+            if self.state.concurrency_level == ConcurrencyLevel::OneWriteMultiRead {
                 #[cfg(zipora_verif)]
                 sched_point(pt::W_LOAD_AW);
-                let current_writers = self.active_writers.load(Ordering::Acquire);
+                let current_writers = self.state.active_writers.load(Ordering::Acquire);
                 if current_writers > 0 {
                     #[cfg(zipora_verif)]
                     sched_point(pt::W_BUSY_UNLOCK);
@@ -524,15 +535,15 @@ impl VersionManager {
 
             #[cfg(zipora_verif)]
             sched_point(pt::W_LOAD_MIN);
-            let current_min = self.min_version.load(Ordering::Acquire);
+            let current_min = self.state.min_version.load(Ordering::Acquire);
             #[cfg(zipora_verif)]
             sched_point(pt::W_FADD_CUR);
-            let version = self.current_version.fetch_add(1, Ordering::AcqRel) + 1;
+            let version = self.state.current_version.fetch_add(1, Ordering::AcqRel) + 1;
 
             // Increment active writer count (still holding the mutex, see above)
             #[cfg(zipora_verif)]
             sched_point(pt::W_INC);
-            self.active_writers.fetch_add(1, Ordering::Relaxed);
+            self.state.active_writers.fetch_add(1, Ordering::Relaxed);
 
             #[cfg(zipora_verif)]
             sched_point(pt::W_UNLOCK);
@@ -541,12 +552,12 @@ impl VersionManager {
             // Increment active writer count
             #[cfg(zipora_verif)]
             sched_point(pt::W_INC);
-            self.active_writers.fetch_add(1, Ordering::Relaxed);
+            self.state.active_writers.fetch_add(1, Ordering::Relaxed);
             (1, 1)
         };
 
         // Update statistics
-        if let Ok(mut stats) = self.stats.lock() {
+        if let Ok(mut stats) = self.state.stats.lock() {
             stats.writer_tokens_acquired += 1;
             stats.total_writer_acquisition_time += start_time.elapsed();
         }
@@ -555,16 +566,41 @@ impl VersionManager {
             version,
             min_version,
             thread::current().id(),
-            self.concurrency_level,
+            self.state.concurrency_level,
             Arc::new(TokenReleaseCallback {
-                version_manager: self as *const Self,
+                state: Arc::clone(&self.state),
                 token_type: TokenType::Writer,
                 #[cfg(zipora_verif)]
-                verif_id: self.verif_id,
+                verif_id: self.state.verif_id,
             }),
         ))
     }
 
+    /// Returns version manager statistics.
+    pub fn stats(&self) -> Result<VersionManagerStats> {
+        self.state.stats
+            .lock()
+            .map(|stats| stats.clone())
+            .map_err(|_| ZiporaError::system_error("Failed to acquire stats mutex"))
+    }
+
+    /// Clears all statistics.
+    pub fn clear_stats(&self) -> Result<()> {
+        self.state.stats
+            .lock()
+            .map(|mut stats| *stats = VersionManagerStats::default())
+            .map_err(|_| ZiporaError::system_error("Failed to acquire stats mutex"))
+    }
+
+    /// Validates that a token version is still valid.
+    pub fn validate_token_version(&self, token_version: u64) -> bool {
+        let current = self.current_version();
+        let min = self.min_version();
+        token_version >= min && token_version <= current
+    }
+}
+
+impl VersionState {
     /// Internal method to release a reader token.
     fn release_reader_token(&self, token_version: u64) {
         #[cfg(zipora_verif)]
@@ -635,29 +671,6 @@ impl VersionManager {
         #[cfg(zipora_verif)]
         sched_point(pt::TA_UNLOCK);
     }
-
-    /// Returns version manager statistics.
-    pub fn stats(&self) -> Result<VersionManagerStats> {
-        self.stats
-            .lock()
-            .map(|stats| stats.clone())
-            .map_err(|_| ZiporaError::system_error("Failed to acquire stats mutex"))
-    }
-
-    /// Clears all statistics.
-    pub fn clear_stats(&self) -> Result<()> {
-        self.stats
-            .lock()
-            .map(|mut stats| *stats = VersionManagerStats::default())
-            .map_err(|_| ZiporaError::system_error("Failed to acquire stats mutex"))
-    }
-
-    /// Validates that a token version is still valid.
-    pub fn validate_token_version(&self, token_version: u64) -> bool {
-        let current = self.current_version();
-        let min = self.min_version();
-        token_version >= min && token_version <= current
-    }
 }
 
 /// Statistics for monitoring version manager performance.
@@ -716,7 +729,8 @@ enum TokenType {
 
 /// Callback structure for token release.
 struct TokenReleaseCallback {
-    version_manager: *const VersionManager,
+    /// The issuing manager's state; holding it keeps the counters valid for the release.
+    state: Arc<VersionState>,
     token_type: TokenType,
     /// Identity of the manager the pointer referred to when the token was issued.
     #[cfg(zipora_verif)]
@@ -726,7 +740,7 @@ struct TokenReleaseCallback {
 impl std::fmt::Debug for TokenReleaseCallback {
     fn fmt(&self, f: &mut std::fmt::Formatter<'_>) -> std::fmt::Result {
         f.debug_struct("TokenReleaseCallback")
-            .field("version_manager", &(self.version_manager as usize))
+            .field("version_manager", &(Arc::as_ptr(&self.state) as usize))
             .field("token_type", &self.token_type)
             .finish()
     }
@@ -739,31 +753,12 @@ impl TokenReleaseCallback {
         if !verif_sched::release_target_alive(self.verif_id) {
             return;
         }
-        unsafe {
-            let manager = &*self.version_manager;
-            match self.token_type {
-                TokenType::Reader => manager.release_reader_token(token_version),
-                TokenType::Writer => manager.release_writer_token(token_version),
-            }
+        match self.token_type {
+            TokenType::Reader => self.state.release_reader_token(token_version),
+            TokenType::Writer => self.state.release_writer_token(token_version),
         }
     }
 }
-
-// SAFETY: TokenReleaseCallback is Send because:
-// 1. `version_manager: *const VersionManager` - Raw pointer to a VersionManager.
-//    The VersionManager is expected to outlive all callbacks (managed by Arc).
-// 2. `token_type: TokenType` - Simple enum, trivially Send.
-//
-// INVARIANT: The VersionManager must remain valid for the lifetime of all callbacks.
-// This is enforced by the Arc<VersionManager> ownership in the token creation path.
-unsafe impl Send for TokenReleaseCallback {}
-
-// SAFETY: TokenReleaseCallback is Sync because:
-// 1. Both fields are read-only after construction.
-// 2. `release()` calls thread-safe methods on VersionManager (which uses atomics).
-// 3. The VersionManager's release_reader_token/release_writer_token are atomic.
-// Sharing &TokenReleaseCallback for concurrent reads is safe.
-unsafe impl Sync for TokenReleaseCallback {}
 
 /// Reader token for safe concurrent read access.
 ///
@@ -848,6 +843,15 @@ impl ReaderToken {
     pub fn is_readonly(&self) -> bool {
         self.concurrency_level == ConcurrencyLevel::NoWriteReadOnly
     }
+
+    /// Returns true if this token was issued by `manager` (read-only tokens carry no
+    /// manager state and belong to any read-only manager).
+    pub fn issued_by(&self, manager: &VersionManager) -> bool {
+        match &self.release_callback {
+            Some(callback) => Arc::ptr_eq(&callback.state, &manager.state),
+            None => manager.concurrency_level() == ConcurrencyLevel::NoWriteReadOnly,
+        }
+    }
 }
 
 impl Drop for ReaderToken {
@@ -929,6 +933,14 @@ impl WriterToken {
     #[inline]
     pub fn allows_concurrent_writers(&self) -> bool {
         self.concurrency_level.allows_concurrent_writers()
+    }
+
+    /// Returns true if this token was issued by `manager`.
+    pub fn issued_by(&self, manager: &VersionManager) -> bool {
+        match &self.release_callback {
+            Some(callback) => Arc::ptr_eq(&callback.state, &manager.state),
+            None => false,
+        }
     }
 }
 
